@@ -80,13 +80,14 @@ class Stats:
 
 class Explorer:
     def __init__(self, tick_budget=None, seed=0, timeout_ms=20000, fork_cap=4096,
-                 max_paths=200000, allow_opaque=False, deadline=None):
+                 max_paths=200000, allow_opaque=False, deadline=None, abstract_dicts=False):
         self.tick_budget = tick_budget
         self.seed = seed
         self.timeout_ms = timeout_ms
         self.fork_cap = fork_cap
         self.max_paths = max_paths
         self.allow_opaque = allow_opaque
+        self.abstract_dicts = abstract_dicts
         self.deadline = deadline
         self.stats = Stats()
         self.assumptions = []
